@@ -588,3 +588,92 @@ Proof.
   - destruct Hhalf; [contradiction|discriminate].
   - rewrite Hh. exact Hc.
 Qed.
+
+(* ---- k steps of size dt are the exact evolution for the time k dt ---- *)
+Definition RL (t : R) (cs : list hterm) : list (fterm (T:=R)) := map (fun c => rterm (fst c * t) (snd c)) cs.
+Lemma RL_is_mk t cs : map (mk (0, - t)) cs = RL t cs.
+Proof. unfold RL. apply map_ext. intros [c ops]. apply mk_real. Qed.
+Lemma fzip_RL t s cs : fzip rops (RL t cs) (RL s cs) = RL (t + s) cs.
+Proof.
+  induction cs as [|[c ops] r IH]; [reflexivity|]. unfold RL in *. cbn [map fzip fst snd]. rewrite IH. f_equal.
+  change (fcomp rops (rterm (c * t) ops) (rterm (c * s) ops) = rterm (c * (t + s)) ops). rewrite fcomp_angles. f_equal. ring.
+Qed.
+Lemma RL_nodups t cs : nodup_terms cs -> nodups (RL t cs).
+Proof. intros H. unfold RL. apply List.Forall_map. eapply List.Forall_impl; [|exact H]. intros a Ha. exact Ha. Qed.
+Lemma RL_commuting t cs : commuting_terms cs -> commuting rops (RL t cs).
+Proof.
+  intros H a b Ha Hb. unfold RL in Ha, Hb. apply in_map_iff in Ha. destruct Ha as [x [<- Hx]]. apply in_map_iff in Hb. destruct Hb as [y [<- Hy]].
+  cbn [snd rterm]. now apply H.
+Qed.
+Lemma RL_compose t s cs : nodup_terms cs -> commuting_terms cs -> forall (f : V) x,
+  runf rops (RL t cs) (runf rops (RL s cs) f) x = runf rops (RL (t + s) cs) f x.
+Proof.
+  intros Hn Hc f x. rewrite <- fzip_RL. apply (sweeps_compose_commuting rops rops_ring); [|now apply RL_nodups|now apply RL_commuting].
+  unfold same_strings, RL. rewrite !map_map. reflexivity.
+Qed.
+Lemma RL_zero cs : nodup_terms cs -> forall (f : V) x, runf rops (RL 0 cs) f x = f x.
+Proof.
+  induction 1 as [|[c ops] r Hn Hr IH]; intros f x; [reflexivity|]. unfold RL in *. cbn [map C10c.runf fst snd rterm].
+  rewrite Rmult_0_r, cos_0, sin_0. rewrite IH. unfold expf. destruct (f x) as [p q], (Pops ops f x) as [p' q']. rcc; ring.
+Qed.
+Fixpoint iterf (k : nat) (F : V -> V) (f : V) : V := match k with O => f | S k' => iterf k' F (F f) end.
+Lemma RL_iter dt cs : nodup_terms cs -> commuting_terms cs -> forall k (f : V) x,
+  iterf k (runf rops (RL dt cs)) f x = runf rops (RL (INR k * dt) cs) f x.
+Proof.
+  intros Hn Hc. induction k as [|k IH]; intros f x.
+  - cbn [iterf]. change (INR 0) with 0. rewrite Rmult_0_l. symmetry. now apply RL_zero.
+  - cbn [iterf]. rewrite IH. rewrite (RL_compose (INR k * dt) dt cs Hn Hc). f_equal. f_equal. rewrite S_INR. ring.
+Qed.
+
+Lemma iterf_ext (F : V -> V) : ext F -> forall j, ext (iterf j F).
+Proof. intros HF. induction j as [|j IH]; intros f g H y; cbn [iterf]; [apply H|]. apply IH. intros i. now apply HF. Qed.
+Lemma iterf_cong (F F' : V -> V) : (forall (f : V) y, F f y = F' f y) -> ext F' -> forall j (f : V) y, iterf j F f y = iterf j F' f y.
+Proof.
+  intros HFF HE. induction j as [|j IH]; intros f y; cbn [iterf]; [reflexivity|]. rewrite IH. apply (iterf_ext F' HE j). intros i. apply HFF.
+Qed.
+
+Lemma iter_steps_runf par n (H : list (eterm (T:=R))) : H <> [] -> List.Forall (term_ok n) H -> forall k v, length v = N.to_nat (2 ^ n) ->
+  exists w, iter_steps k (first_order_step rops par H) (mkState n v) = Ok (mkState n w) /\ length w = N.to_nat (2 ^ n) /\
+    forall x, (x < 2 ^ n)%N -> get (c0 rops) w x = iterf k (runf rops (map (to_f rops) H)) (get (c0 rops) v) x.
+Proof.
+  intros Hne Hok.
+  assert (Hfo : List.Forall (fok n) (map (to_f rops) H)) by (apply List.Forall_map; eapply List.Forall_impl; [|exact Hok]; intros; now apply to_f_ok).
+  assert (G : forall j (f g : V), (forall i, (i < 2 ^ n)%N -> f i = g i) -> forall i, (i < 2 ^ n)%N ->
+              iterf j (runf rops (map (to_f rops) H)) f i = iterf j (runf rops (map (to_f rops) H)) g i).
+  { induction j as [|j IHj]; intros f g Hfg i Hi; cbn [iterf]; [now apply Hfg|]. apply IHj; [|exact Hi].
+    intros i' Hi'. now apply (runf_ext_in rops n _ Hfo). }
+  induction k as [|k IH]; intros v Hl.
+  - exists v. cbn [iter_steps iterf]. repeat split; auto.
+  - cbn [iter_steps]. unfold first_order_step at 1. destruct H as [|e r] eqn:E; [contradiction|]. rewrite <- E in *.
+    rewrite (run_eterms_is_runf rops rops_ring par n H Hok v Hl). cbn [bind].
+    destruct (IH (map (runf rops (map (to_f rops) H) (get (c0 rops) v)) (Nrange (2 ^ n))) (map_R_length _ n)) as [w [Ew [Lw Hw]]].
+    exists w. split; [exact Ew|]. split; [exact Lw|]. intros x Hx. rewrite (Hw x Hx). cbn [iterf]. apply G; [|exact Hx].
+    intros i Hi. now rewrite (get_map_Nrange rops).
+Qed.
+
+Theorem commuting_evolve_exact par n (H : list (eterm (T:=R))) (dt : R) (k : nat) v :
+  H <> [] -> List.Forall (term_ok n) H -> length v = N.to_nat (2 ^ n) -> List.Forall (true_values dt) H ->
+  commuting_terms (map hterm_of H) ->
+  exists w, trotter_evolve rops par First H k (mkState n v) = Ok (mkState n w) /\ length w = N.to_nat (2 ^ n) /\
+    forall x, (x < 2 ^ n)%N ->
+      infinite_sum (fun j => fst (et (Hf (map hterm_of H)) (0, - (INR k * dt)) j (get (c0 rops) v) x)) (fst (get (c0 rops) w x)) /\
+      infinite_sum (fun j => snd (et (Hf (map hterm_of H)) (0, - (INR k * dt)) j (get (c0 rops) v) x)) (snd (get (c0 rops) w x)).
+Proof.
+  intros Hne Hok Hl Htv Hc.
+  destruct (iter_steps_runf par n H Hne Hok k v Hl) as [w [Ew [Lw Hw]]].
+  exists w. split; [|split; [exact Lw|]].
+  - unfold trotter_evolve. destruct H; [contradiction|exact Ew].
+  - intros x Hx.
+    assert (Hn : nodup_terms (map hterm_of H)).
+    { apply List.Forall_map. eapply List.Forall_impl; [|exact Hok]. intros e [He _]. exact He. }
+    (* each sweep is the sweep of the true values *)
+    assert (Esw : forall (f : V) y, runf rops (map (to_f rops) H) f y = runf rops (RL dt (map hterm_of H)) f y).
+    { intros f y. rewrite <- RL_is_mk. apply runf_cong. clear -Hok Htv. induction H as [|e r IH]; cbn [map]; [constructor|].
+      inversion Hok as [|? ? [He _] Hr]; subst. inversion Htv as [|? ? Te Tr]; subst. constructor; [|now apply IH].
+      unfold hterm_of at 1 2. rewrite mk_real. split; [exact He|]. apply (to_f_true_values dt e Te). }
+    assert (Eit : forall j (f : V) y, iterf j (runf rops (map (to_f rops) H)) f y = iterf j (runf rops (RL dt (map hterm_of H))) f y).
+    { intros j f y. apply iterf_cong; [exact Esw|]. intros f' g' Hfg y'. apply (runf_ext rops rops_ring _ (RL_nodups dt _ Hn)). exact Hfg. }
+    rewrite (Hw x Hx), Eit, (RL_iter dt _ Hn Hc k), <- RL_is_mk.
+    destruct (commuting_exact (0, - (INR k * dt)) (map hterm_of H) Hn Hc (get (c0 rops) v) (lsum v) (get_bdd v) x) as [S1 S2].
+    split; apply is_series_Reals; assumption.
+Qed.
